@@ -151,4 +151,38 @@ def Cfg.same (a b : Cfg) : Prop :=
   a.floor = b.floor ∧ a.convDenom = b.convDenom ∧ a.nhashPerUsdMil = b.nhashPerUsdMil ∧
   a.collector = b.collector ∧ ∀ t, lookupFee a t = lookupFee b t
 
+/-! ### Nested messages (reference)
+
+"Every additional message fee incurred, including those of nested authz or contract-dispatched
+messages": a body is a `Forest`; EVERY message of it, whatever its depth, incurs the fees of its
+type (and its custom assessment); handlers may incur flat fees themselves.  Written over the
+tree, not over the order in which the router happens to see the messages. -/
+
+/-- What the handlers themselves do (grant checks before an inner message, the handler's work
+and flat fees after the routing), without the routing. -/
+def Forest.handlerSteps : Forest → List Step
+  | .nil => []
+  | .node pre _ h ch sib => pre ++ (h ++ (ch.handlerSteps ++ sib.handlerSteps))
+
+/-- The fees a forest incurs: those of ALL its messages plus the handler-level ones. -/
+def forestIncurred (cfg : Cfg) (f : Forest) : List Incurred :=
+  topIncurred cfg f.allMsgs ++ stepsIncurred cfg f.handlerSteps
+
+/-- A routed message can only come from a node of the tree: handlers' own steps route nothing
+(dispatching goes through `children`). -/
+def noRoute : List Step → Bool
+  | [] => true
+  | .route _ :: _ => false
+  | _ :: rest => noRoute rest
+
+def Forest.wf : Forest → Bool
+  | .nil => true
+  | .node pre _ h ch sib => noRoute pre && noRoute h && ch.wf && sib.wf
+
+/-- The messages a step list routes, in order. -/
+def routed : List Step → List RMsg
+  | [] => []
+  | .route m :: rest => m :: routed rest
+  | _ :: rest => routed rest
+
 end PvModel.Txfee
